@@ -37,7 +37,7 @@ REQUIRED_TAGS = ["conflict", "no-conflict", "modify-modify", "delete-modify", "i
 def gen_one(rng):
     while True:
         c = g.gen_one(rng)
-        if c["kind"] is None:
+        if c["kind"] is None and not any("collate" in x for x in c["setup"]):   # representation variants are C29's business
             return c
 
 
